@@ -25,9 +25,36 @@ def docstring_nodes(tree):
     return out
 
 
+EXTRA = bool(os.environ.get("MUTGEN_EXTRA"))
+EVENT_FIELDS = {"key": ["item"], "item": ["key"], "store": ["key"], "error": ["key"]}
+
+
+def siblings(name, names):
+    """other names of the same function that share a prefix or a suffix of at least 4 characters with name (state_start / state_last,
+    observer / outer_observer): the variables a slip confuses"""
+    out = []
+    for o in sorted(names):
+        if o == name:
+            continue
+        a, b = name.split("_"), o.split("_")
+        if (len(a) > 1 or len(b) > 1) and (a[0] == b[0] or a[-1] == b[-1]) and len(a[0] if a[0] == b[0] else a[-1]) >= 4:
+            out.append(o)
+    return out[:2]
+
+
 def mutants_of(src):
     """[(description, lineno, new source)]"""
     tree = ast.parse(src)
+    names_by_fn = {}
+    for f in ast.walk(tree):
+        if isinstance(f, (ast.FunctionDef, ast.Lambda)):
+            ns = set()
+            for x in ast.walk(f):
+                if isinstance(x, ast.Name):
+                    ns.add(x.id)
+                elif isinstance(x, ast.arg):
+                    ns.add(x.arg)
+            names_by_fn[id(f)] = ns
     docs = docstring_nodes(tree)
     nodes = list(ast.walk(tree))
     out = []
@@ -137,6 +164,33 @@ def mutants_of(src):
                 return False
             if n.value is None:
                 emit("delete early return", n, ap)
+        if EXTRA and isinstance(n, ast.Attribute) and isinstance(n.ctx, ast.Load) and n.attr in EVENT_FIELDS and isinstance(n.value, ast.Name):
+            for rep in EVENT_FIELDS[n.attr]:
+                def ap(x, t, rep=rep):
+                    x.attr = rep
+                emit("field %s->%s: %s" % (n.attr, rep, ast.unparse(n)), n, ap)
+        if EXTRA and isinstance(n, ast.Name) and isinstance(n.ctx, ast.Load):
+            f = parents.get(id(n))
+            while f is not None and not isinstance(f, (ast.FunctionDef, ast.Lambda)):
+                f = parents.get(id(f))
+            sib = siblings(n.id, names_by_fn.get(id(f), ())) if f is not None else []
+            for rep in sib:
+                def ap(x, t, rep=rep):
+                    x.id = rep
+                emit("name %s->%s" % (n.id, rep), n, ap)
+        if EXTRA and isinstance(n, (ast.FunctionDef, ast.If, ast.For, ast.While, ast.With, ast.Try)):
+            for fld in ("body", "orelse"):
+                b = getattr(n, fld, None)
+                if not isinstance(b, list):
+                    continue
+                for k in range(len(b) - 1):
+                    s1, s2 = b[k], b[k + 1]
+                    if isinstance(s1, (ast.Expr, ast.Assign, ast.AugAssign)) and isinstance(s2, (ast.Expr, ast.Assign, ast.AugAssign)) \
+                            and not (isinstance(s1, ast.Expr) and isinstance(s1.value, ast.Constant)):
+                        def ap(x, t, fld=fld, k=k):
+                            bb = getattr(x, fld)
+                            bb[k], bb[k + 1] = bb[k + 1], bb[k]
+                        emit("swap stmts: %s <-> %s" % (ast.unparse(s1)[:40], ast.unparse(s2)[:40]), n, ap)
         if isinstance(n, ast.Return) and n.value is None and isinstance(parents.get(id(n)), ast.If):
             def ap(x, t):
                 for p in ast.walk(t):
@@ -210,6 +264,8 @@ if __name__ == "__main__":
         ms = mutants_of(src)
         if mx:
             ms = ms[:mx]
+        if os.environ.get("MUTGEN_EXTRA") == "only":
+            ms = [x for x in ms if x[0].startswith(("field ", "name ", "swap stmts"))]
         jobs += [(rel, d, ln, new) for d, ln, new in ms]
     print("%d mutants over %d files" % (len(jobs), len(files)), file=sys.stderr)
     with ProcessPoolExecutor(max_workers=16) as ex:
